@@ -4,7 +4,7 @@ from props.polycases import P, W, GRID, coef, poly, grp
 ID = "C09"
 GEN_TAGS = ["PolyGen"]
 PROOF_TARGETS = ["proofs/PolyDivProofs.vo", "proofs/XFieldPoly.vo", "proofs/XFieldCleanDivide.vo",
-                 "proofs/PolyDeepenDiv.vo", "proofs/PolyDeepenNewton.vo"]
+                 "proofs/PolyDeepenDiv.vo", "proofs/PolyDeepenNewton.vo", "proofs/PolyDeepenXfe.vo"]
 PROPS_FILE = "props/C09.v"
 EXTRA_PROPS_FILES = ["props/C09b.v"]
 EXTRACT = "extract/ExtractC09.vo"
@@ -71,7 +71,7 @@ ASSUMPTIONS = [
     "placeholder C09_fpsi_newton_full asks for precision * degree < 2^30; that admits inputs whose full evaluation domain has "
     "2^32 elements, which ntt rejects: C09_fpsi_newton_panics_at_full_domain_2_32 exhibits one (1 + X^1023 at precision "
     "2^20 + 1, proved without executing it); the proved statement has the bound precision * max(1, degree) <= 2^29. "
-    "BFieldElement instances of reduce / fast_reduce / structured_multiple_of_degree / reduce_by_ntt_friendly_modulus: C09_bfe_*",
+    "BFieldElement instances of reduce / fast_reduce / structured_multiple_of_degree / reduce_by_ntt_friendly_modulus: C09_bfe_*; Newton over XFieldElement: C09_xfe_fpsi_newton",
 ]
 RULE = ("(dividend degree, divisor degree) around (4d, d) for d in {1,2,127,128,129,255,256,257,511,512,513} (+1023..1025 "
         "thorough) for divide / reduce / fast_reduce / rem / div, both fields; divisors with root 0 and double root 0; divisors "
